@@ -12,6 +12,7 @@ import (
 	"os"
 	"path/filepath"
 	"runtime"
+	"runtime/debug"
 	"sort"
 	"strings"
 	"sync"
@@ -332,6 +333,9 @@ func (c *Ctx) Finish(level string, rule string) int {
 	if c.Replay == "" {
 		out, _ := json.MarshalIndent(ev, "", " ")
 		dir := filepath.Join(c.VerifDir, "evidence")
+		if d := os.Getenv("VERIF_EVIDENCE_DIR"); d != "" {
+			dir = d // used by selftest so that runs against scratch copies do not overwrite the real evidence
+		}
 		os.MkdirAll(dir, 0o755)
 		tmp := filepath.Join(dir, c.Prop+".json.tmp")
 		if err := os.WriteFile(tmp, out, 0o644); err != nil {
@@ -379,11 +383,32 @@ func (c *Ctx) ParRange(n int64, chunk int64, what string, fn func(i int64)) {
 					return
 				}
 				hi := min(lo+chunk, n)
-				for i := lo; i < hi; i++ {
-					fn(i)
+				for lo < hi {
+					lo = c.runChunk(lo, hi, what, fn)
 				}
 			}
 		}()
 	}
 	wg.Wait()
+}
+
+// runChunk calls fn for lo..hi-1; a panic of the code under test at index i becomes a violation (a crashed
+// call yields no correct answer) and the chunk is resumed at i+1.
+func (c *Ctx) runChunk(lo, hi int64, what string, fn func(i int64)) (next int64) {
+	i := lo
+	defer func() {
+		if r := recover(); r != nil {
+			st := string(debug.Stack())
+			if len(st) > 2500 {
+				st = st[:2500]
+			}
+			c.Violation(map[string]any{"enumeration": what, "index": i, "panic": fmt.Sprint(r)},
+				Failf("panic while exploring %s at index %d: %v\n%s", what, i, r, st), nil, "")
+			next = i + 1
+		}
+	}()
+	for ; i < hi; i++ {
+		fn(i)
+	}
+	return hi
 }
